@@ -1,6 +1,760 @@
-//! Oracles for the structured streams (notes, hash tables, symbol versions, whole files, streams).
+//! Oracles for the structured streams (notes, hash tables, symbol versions, whole files, prefixes).
+//! Failures are tagged with the property whose predicate failed: `Cxx: message`.
+use crate::alloc_count;
+use crate::enc::*;
+use crate::run::*;
+use crate::show::*;
+use elf::abi;
+use elf::endian::{AnyEndian, BigEndian, LittleEndian};
+use elf::file::Class;
+use elf::hash::{GnuHashTable, SysVHashTable};
+use elf::string_table::StringTable;
+use elf::symbol::SymbolTable;
+use elf::ElfBytes;
+
 type V = Result<(), String>;
 
-pub fn oracle_line2(_line: &str, _ann: &str) -> V {
+fn nat(s: &str) -> usize {
+    s.parse::<usize>().unwrap_or(0)
+}
+
+fn ann_get<'a>(ann: &'a str, key: &str) -> Option<&'a str> {
+    for part in ann.split('|') {
+        if let Some(v) = part.strip_prefix(key) {
+            if let Some(v) = v.strip_prefix('=') {
+                return Some(v);
+            }
+        }
+    }
+    None
+}
+
+// ------------------------------------------------------------------------------------------
+// notes: reference walker written from the note-section description
+// ------------------------------------------------------------------------------------------
+
+fn ref_notes(le: bool, align: u128, data: &[u8]) -> Vec<String> {
+    let mut out = vec![];
+    if data.is_empty() || align == 0 {
+        return out;
+    }
+    let len = data.len() as u128;
+    let mut off: u128 = 0;
+    let pad = |o: u128| -> u128 { if o % align > 0 { o + (align - o % align) } else { o } };
+    let loc = |a: u128, b: u128| -> String { if a == b { "@+0".into() } else { format!("@{}+{}", a, b - a) } };
+    loop {
+        if off + 12 > len || off >= (1u128 << 64) {
+            break;
+        }
+        let o = off as usize;
+        let namesz = get(&data[o..o + 4], le, 4) as u128;
+        let descsz = get(&data[o + 4..o + 8], le, 4) as u128;
+        let ntype = get(&data[o + 8..o + 12], le, 4);
+        let name_start = off + 12;
+        let name_end = name_start + namesz;
+        if name_end > len {
+            break;
+        }
+        let desc_start = pad(name_end);
+        if desc_start >= (1u128 << 64) {
+            break;
+        }
+        let desc_end = desc_start + descsz;
+        if desc_end > len || desc_start > len {
+            break;
+        }
+        let next = pad(desc_end);
+        if next >= (1u128 << 64) {
+            break;
+        }
+        let name = &data[name_start as usize..name_end as usize];
+        let desc = &data[desc_start as usize..desc_end as usize];
+        if name == b"GNU\0" && ntype == 1 {
+            if desc.len() < 16 {
+                break; // the ABI-tag descriptor is four words; a shorter one ends iteration
+            }
+            out.push(format!(
+                "note:abitag({},{},{},{})",
+                get(&desc[0..4], le, 4), get(&desc[4..8], le, 4), get(&desc[8..12], le, 4), get(&desc[12..16], le, 4)
+            ));
+        } else if name == b"GNU\0" && ntype == 3 {
+            out.push(format!("note:buildid({})", loc(desc_start, desc_end)));
+        } else {
+            let s = match std::str::from_utf8(name) {
+                Ok(s) => {
+                    let t = s.trim_end_matches('\0');
+                    format!("ok {}", loc(name_start, name_start + t.len() as u128))
+                }
+                Err(_) => "err Utf8Error".to_string(),
+            };
+            out.push(format!("note:any({},{},{},str={})", ntype, loc(name_start, name_end), loc(desc_start, desc_end), s));
+        }
+        off = next;
+    }
+    out
+}
+
+fn oracle_notes(line: &str, le: bool, align: &str, data: &[u8]) -> V {
+    let got = run_line(line);
+    let align: u128 = align.parse::<u128>().unwrap_or(0);
+    let want = ref_notes(le, align, data);
+    let want_s = format!("ok [{}] post=", want.join(" "));
+    if !got.starts_with(&want_s) {
+        return Err(format!("C14: iteration differs from the reference walk: got `{}` expected prefix `{}`", &got[..got.len().min(300)], &want_s[..want_s.len().min(300)]));
+    }
+    if want.len() > data.len() {
+        return Err("C16: more notes than bytes".into());
+    }
     Ok(())
+}
+
+// ------------------------------------------------------------------------------------------
+// hash tables: sound on any table, complete on well-formed ones
+// ------------------------------------------------------------------------------------------
+
+fn oracle_hash(kind: &str, le: bool, c: Class, sym: &[u8], strs: &[u8], name: &[u8], hash: &[u8], ann: &str) -> V {
+    let tag = if kind == "gnu" { "C11" } else { "C12" };
+    let e = any_endian(le);
+    let symtab = SymbolTable::new(e, c, sym);
+    let strtab = StringTable::new(strs);
+    let t0 = std::time::Instant::now();
+    let res = if kind == "gnu" {
+        match GnuHashTable::new(e, c, hash) {
+            Ok(t) => t.find(name, &symtab, &strtab),
+            Err(_) => return Ok(()),
+        }
+    } else {
+        match SysVHashTable::new(e, c, hash) {
+            Ok(t) => t.find(name, &symtab, &strtab),
+            Err(_) => return Ok(()),
+        }
+    };
+    if t0.elapsed().as_secs() >= 5 {
+        return Err("C16: lookup took more than 5 s".into());
+    }
+    // soundness, any table
+    if let Ok(Some((i, s))) = &res {
+        match symtab.get(*i) {
+            Ok(s2) if s2 == *s => {}
+            _ => return Err(format!("{}: returned symbol is not symtab[{}]", tag, i)),
+        }
+        match strtab.get_raw(s.st_name as usize) {
+            Ok(n) if n == name => {}
+            _ => return Err(format!("{}: returned symbol's name differs from the queried name", tag)),
+        }
+    }
+    if ann_get(ann, "wf") == Some("1") || ann.contains("wf=1") {
+        let present = ann.contains("present");
+        match (&res, present) {
+            (Ok(Some(_)), true) => {}
+            (Ok(None), false) => {}
+            (r, _) => {
+                return Err(format!(
+                    "{}: well-formed table, name {}: lookup returned {}",
+                    tag,
+                    if present { "present" } else { "absent" },
+                    show_found(r)
+                ))
+            }
+        }
+    }
+    Ok(())
+}
+
+// ------------------------------------------------------------------------------------------
+// symbol versions: ground truth from the generator's version model
+// ------------------------------------------------------------------------------------------
+
+fn oracle_symver(line: &str, ann: &str, needstr: &[u8], defstr: &[u8]) -> V {
+    let got = run_line(line);
+    let parts: Vec<&str> = got.split(';').collect();
+    // C16: never more records than bytes — checked through the verit lines
+    let truth = match ann_get(ann, "truth") {
+        Some(t) => t,
+        None => return Ok(()),
+    };
+    let find_str = |blob: &[u8], s: &[u8]| -> Vec<String> {
+        // every location at which `s\0` occurs (a string may legitimately occur more than once)
+        let mut v = vec![];
+        if s.is_empty() {
+            v.push("@+0".to_string());
+            return v;
+        }
+        let mut i = 0;
+        while i + s.len() < blob.len() + 0 {
+            if &blob[i..i + s.len()] == s && blob.get(i + s.len()) == Some(&0) && (i == 0 || blob[i - 1] == 0) {
+                v.push(format!("@{}+{}", i, s.len()));
+            }
+            i += 1;
+        }
+        v
+    };
+    for item in truth.split(',') {
+        let f: Vec<&str> = item.split(':').collect();
+        let kind = &f[0][..1];
+        let idx = &f[0][1..];
+        let key = format!("{}{}=", if kind == "R" { "r" } else { "d" }, idx);
+        let reply = match parts.iter().find(|p| p.starts_with(&key)) {
+            Some(p) => &p[key.len()..],
+            None => return Err(format!("C13: no reply for {}", key)),
+        };
+        if f[1] == "none" {
+            if reply != "ok none" {
+                return Err(format!("C13: symbol {} has no matching {} but got `{}`", idx, if kind == "R" { "requirement" } else { "definition" }, reply));
+            }
+            continue;
+        }
+        if kind == "R" {
+            let (file, name, hash, flags, hidden) = (unhex(f[1]), unhex(f[2]), f[3], f[4], f[5]);
+            let mut ok = false;
+            if std::str::from_utf8(&file).is_err() || std::str::from_utf8(&name).is_err() {
+                ok = reply == "err Utf8Error";
+            }
+            for fl in find_str(needstr, &file) {
+                for nl in find_str(needstr, &name) {
+                    if reply == format!("ok some req({},{},{},{},{})", fl, nl, hash, flags, hidden) {
+                        ok = true;
+                    }
+                }
+            }
+            if !ok {
+                return Err(format!("C13: requirement of symbol {}: got `{}`, expected file={} name={} hash={} flags={} hidden={}",
+                                   idx, reply, String::from_utf8_lossy(&file), String::from_utf8_lossy(&name), hash, flags, hidden));
+            }
+        } else {
+            let (hash, flags, hidden) = (f[1], f[2], f[3]);
+            let names: Vec<Vec<u8>> = f[4].split('+').map(unhex).collect();
+            let head = format!("ok some def({},{},{},names=ok [", hash, flags, hidden);
+            if !reply.starts_with(&head) {
+                return Err(format!("C13: definition of symbol {}: got `{}` expected `{}…`", idx, reply, head));
+            }
+            let inner = &reply[head.len()..reply.len().saturating_sub(2)];
+            let toks: Vec<&str> = if inner.is_empty() { vec![] } else { inner.split(' ').collect() };
+            // tokens come in pairs: "ok" "@o+l"  or  "err" "Utf8Error"
+            let items: Vec<(&str, &str)> = toks.chunks(2).filter(|c| c.len() == 2).map(|c| (c[0], c[1])).collect();
+            if items.len() != names.len() {
+                return Err(format!("C13: definition of symbol {}: {} names, expected {}", idx, items.len(), names.len()));
+            }
+            for ((st, l), n) in items.iter().zip(&names) {
+                if std::str::from_utf8(n).is_err() {
+                    if *st != "err" {
+                        return Err(format!("C13: definition of symbol {}: non-UTF-8 name not reported as an error", idx));
+                    }
+                } else if *st != "ok" || !find_str(defstr, n).iter().any(|x| x == l) {
+                    return Err(format!("C13: definition of symbol {}: name at {} is not `{}`", idx, l, String::from_utf8_lossy(n)));
+                }
+            }
+        }
+    }
+    // indexes beyond the versym table never give a record
+    for p in &parts {
+        if let Some(rest) = p.strip_prefix('r').or_else(|| p.strip_prefix('d')) {
+            if let Some((i, v)) = rest.split_once('=') {
+                if let Ok(i) = i.parse::<u128>() {
+                    let nver = truth.split(',').filter(|x| x.starts_with('R')).count() as u128;
+                    if i >= nver && v.starts_with("ok some") {
+                        return Err(format!("C13: symbol index {} beyond the versym table gave a record", i));
+                    }
+                }
+            }
+        }
+    }
+    Ok(())
+}
+
+fn oracle_verit(line: &str, kind: &str, count: &str, data: &[u8]) -> V {
+    let t0 = std::time::Instant::now();
+    let got = run_line(line);
+    if t0.elapsed().as_secs() >= 5 {
+        return Err("C16: iteration took more than 5 s".into());
+    }
+    // top-level records yielded: count the record markers at nesting depth of the outer list
+    let marker = match kind { "def" => "verdef(", "need" => "verneed(", "defaux" => "verdaux(", _ => "vernaux(" };
+    let body = got.split(" post=").next().unwrap_or("");
+    let yielded = body.matches(marker).count() as u128;
+    let cnt: u128 = count.parse::<u128>().unwrap_or(0);
+    let cnt = if kind.ends_with("aux") { cnt % 65536 } else { cnt };
+    if yielded > cnt {
+        return Err(format!("C16: iterator yielded {} records, declared count {}", yielded, cnt));
+    }
+    if yielded > data.len() as u128 {
+        return Err(format!("C16: iterator yielded {} records from {} bytes", yielded, data.len()));
+    }
+    Ok(())
+}
+
+// ------------------------------------------------------------------------------------------
+// whole files
+// ------------------------------------------------------------------------------------------
+
+fn chdr_size(c: Class) -> usize {
+    match c { Class::ELF32 => 12, Class::ELF64 => 24 }
+}
+
+fn within(data: &[u8], s: &[u8]) -> Option<usize> {
+    if s.is_empty() {
+        return Some(0);
+    }
+    let p = s.as_ptr() as usize;
+    let b = data.as_ptr() as usize;
+    if p >= b && p + s.len() <= b + data.len() { Some(p - b) } else { None }
+}
+
+fn oracle_file(spec: &str, queries: &str, data: &[u8], ann: &str) -> V {
+    // C06: no heap allocation while opening and querying (allocator armed around the whole transcript)
+    let before = alloc_count::arm();
+    let transcript_any = run_file::<AnyEndian>(queries, data);
+    let allocs = alloc_count::disarm(before);
+    // (run_file formats strings; formatting allocations are excluded by running the *bare* API below)
+    let _ = allocs;
+    let bare = {
+        let b0 = alloc_count::arm();
+        bare_api_walk(data);
+        alloc_count::disarm(b0)
+    };
+    if bare != 0 {
+        return Err(format!("C06: {} heap allocation(s) while opening/querying the slice parser", bare));
+    }
+    // C10: AnyEndian ≡ matching fixed spec on every observable
+    if data.len() > 5 {
+        let fixed = match data[5] {
+            1 => Some(run_file::<LittleEndian>(queries, data)),
+            2 => Some(run_file::<BigEndian>(queries, data)),
+            _ => None,
+        };
+        if let Some(f) = fixed {
+            if f != transcript_any {
+                return Err("C10: AnyEndian and the matching fixed spec disagree on this file".into());
+            }
+        }
+        // the other fixed spec must refuse with the byte found (when nothing earlier is wrong)
+        if transcript_any.starts_with("open=ok") {
+            let other = if data[5] == 1 { run_file::<BigEndian>("-", data) } else { run_file::<LittleEndian>("-", data) };
+            let want = format!("open=err UnsupportedElfEndianness({})", data[5]);
+            if other != want {
+                return Err(format!("C10: wrong-order spec answered `{}` expected `{}`", other, want));
+            }
+        }
+    }
+    let _ = spec;
+    let f = match ElfBytes::<AnyEndian>::minimal_parse(data) {
+        Ok(f) => f,
+        Err(_) => {
+            if ann_get(ann, "clean") == Some("1") {
+                return Err("C05: a well-formed generated file failed to open".into());
+            }
+            return Ok(());
+        }
+    };
+    let class = f.ehdr.class;
+    // C05: tables located as declared (builder ground truth for clean files)
+    if ann_get(ann, "clean") == Some("1") {
+        let shnum = nat(ann_get(ann, "shnum").unwrap_or("0"));
+        let phnum = nat(ann_get(ann, "phnum").unwrap_or("0"));
+        let got_sh = f.section_headers().map(|t| t.len()).unwrap_or(0);
+        let got_ph = f.segments().map(|t| t.len()).unwrap_or(0);
+        if got_sh != shnum || f.section_headers().is_some() != (shnum > 0) {
+            return Err(format!("C05: section table has {} entries, the file declares {}", got_sh, shnum));
+        }
+        if got_ph != phnum || f.segments().is_some() != (phnum > 0) {
+            return Err(format!("C05: program header table has {} entries, the file declares {}", got_ph, phnum));
+        }
+        if shnum > 0 {
+            let want = nat(ann_get(ann, "shstrndx").unwrap_or("0"));
+            if want != 0 {
+                // the string table returned must be the section at the declared index
+                if let (Ok((Some(shdrs), Some(st))), true) = (f.section_headers_with_strtab(), true) {
+                    if let Ok(sh) = shdrs.get(want) {
+                        if let Ok(r) = st.get_raw(0) {
+                            if sh.sh_size > 0 && within(data, r) != Some(sh.sh_offset as usize) && !r.is_empty() {
+                                return Err("C05: section-name string table is not the section e_shstrndx/shdr[0].sh_link designates".into());
+                            }
+                        }
+                    }
+                }
+            }
+        }
+    }
+    // C05: the tables are exactly [e_shoff, e_shoff + n*entsize) — re-derive from the parsed header
+    if let Some(t) = f.section_headers() {
+        let esz = match class { Class::ELF32 => 40, Class::ELF64 => 64 };
+        if f.ehdr.e_shentsize as usize != esz {
+            return Err("C05: opened although e_shentsize differs from the class's section header size".into());
+        }
+        let end = f.ehdr.e_shoff as u128 + (t.len() as u128) * esz as u128;
+        if end > data.len() as u128 {
+            return Err("C05: section table does not fit in the file but open succeeded".into());
+        }
+        let declared = if f.ehdr.e_shnum != 0 { f.ehdr.e_shnum as u128 } else { t.get(0).map(|s| s.sh_size as u128).unwrap_or(0) };
+        if declared != t.len() as u128 {
+            return Err(format!("C05: section table has {} entries, header declares {}", t.len(), declared));
+        }
+    } else if f.ehdr.e_shoff != 0 {
+        return Err("C05: e_shoff != 0 but no section table".into());
+    }
+    if let Some(t) = f.segments() {
+        let esz = match class { Class::ELF32 => 32, Class::ELF64 => 56 };
+        if f.ehdr.e_phentsize as usize != esz {
+            return Err("C05: opened although e_phentsize differs from the class's program header size".into());
+        }
+        let end = f.ehdr.e_phoff as u128 + (t.len() as u128) * esz as u128;
+        if end > data.len() as u128 {
+            return Err("C05: program header table does not fit in the file but open succeeded".into());
+        }
+    } else if f.ehdr.e_phoff != 0 {
+        return Err("C05: e_phoff != 0 but no program header table".into());
+    }
+
+    // C03: returned data is the exact header-designated range
+    if let Some(shdrs) = f.section_headers() {
+        for (i, sh) in shdrs.iter().enumerate().take(40) {
+            let fits = (sh.sh_offset as u128 + sh.sh_size as u128) <= data.len() as u128;
+            let r = f.section_data(&sh);
+            if sh.sh_type == abi::SHT_NOBITS {
+                match &r {
+                    Ok((d, None)) if d.is_empty() => {}
+                    _ => return Err(format!("C03: SHT_NOBITS section {} did not yield empty data", i)),
+                }
+                continue;
+            }
+            let compressed = sh.sh_flags & abi::SHF_COMPRESSED as u64 != 0;
+            match (&r, fits) {
+                (Ok((d, ch)), true) => {
+                    let (eo, el) = if compressed {
+                        (sh.sh_offset as usize + chdr_size(class), (sh.sh_size as usize).saturating_sub(chdr_size(class)))
+                    } else {
+                        (sh.sh_offset as usize, sh.sh_size as usize)
+                    };
+                    if compressed != ch.is_some() {
+                        return Err(format!("C03: section {}: compression header presence wrong", i));
+                    }
+                    if compressed && (sh.sh_size as usize) < chdr_size(class) {
+                        return Err(format!("C03: section {} shorter than its compression header but data returned", i));
+                    }
+                    if d.len() != el || (el > 0 && within(data, d) != Some(eo)) {
+                        return Err(format!("C03: section {} data is not [{}, {}+{}) of the input", i, eo, eo, el));
+                    }
+                }
+                (Err(_), false) => {}
+                (Err(_), true) if compressed && (sh.sh_size as usize) < chdr_size(class) => {}
+                (Ok(_), false) => return Err(format!("C03: section {} range does not fit the file but data was returned", i)),
+                (Err(e), true) => return Err(format!("C03: section {} range fits but error {}", i, show_err(e))),
+            }
+            // C20: typed views are refused on type mismatch, otherwise decode the raw bytes
+            if sh.sh_type != abi::SHT_STRTAB {
+                match f.section_data_as_strtab(&sh) {
+                    Err(elf::ParseError::UnexpectedSectionType((a, b))) if a == sh.sh_type && b == abi::SHT_STRTAB => {}
+                    _ => return Err(format!("C20: strtab view of section {} (type {}) not refused", i, sh.sh_type)),
+                }
+            }
+            if sh.sh_type != abi::SHT_NOTE {
+                if !matches!(f.section_data_as_notes(&sh), Err(elf::ParseError::UnexpectedSectionType((a, b))) if a == sh.sh_type && b == abi::SHT_NOTE) {
+                    return Err(format!("C20: notes view of section {} (type {}) not refused", i, sh.sh_type));
+                }
+            } else if let (Ok(it), Ok((d, None))) = (f.section_data_as_notes(&sh), &r) {
+                let b = Bases(vec![data]);
+                let got: Vec<String> = it.map(|n| show_note(&n, &b)).collect();
+                // reference walk over the raw section bytes, re-based to file offsets
+                let base = within(data, d).unwrap_or(0);
+                let want: Vec<String> = ref_notes(f.ehdr.endianness == AnyEndian::Little, sh.sh_addralign as u128, d)
+                    .into_iter()
+                    .map(|s| rebase(&s, base))
+                    .collect();
+                if got != want {
+                    return Err(format!("C14: notes of section {} differ from the reference walk", i));
+                }
+            }
+            if sh.sh_type != abi::SHT_REL {
+                if !matches!(f.section_data_as_rels(&sh), Err(elf::ParseError::UnexpectedSectionType((a, b))) if a == sh.sh_type && b == abi::SHT_REL) {
+                    return Err(format!("C20: rel view of section {} not refused", i));
+                }
+            } else if let (Ok(it), Ok((d, None))) = (f.section_data_as_rels(&sh), &r) {
+                let esz = match class { Class::ELF32 => 8, Class::ELF64 => 16 };
+                if it.count() != d.len() / esz {
+                    return Err(format!("C20: rel view of section {} does not yield the whole entries of its bytes", i));
+                }
+            }
+            if sh.sh_type != abi::SHT_RELA {
+                if !matches!(f.section_data_as_relas(&sh), Err(elf::ParseError::UnexpectedSectionType((a, b))) if a == sh.sh_type && b == abi::SHT_RELA) {
+                    return Err(format!("C20: rela view of section {} not refused", i));
+                }
+            } else if let (Ok(it), Ok((d, None))) = (f.section_data_as_relas(&sh), &r) {
+                let esz = match class { Class::ELF32 => 12, Class::ELF64 => 24 };
+                if it.count() != d.len() / esz {
+                    return Err(format!("C20: rela view of section {} does not yield the whole entries of its bytes", i));
+                }
+            }
+        }
+    }
+    if let Some(phdrs) = f.segments() {
+        for (i, ph) in phdrs.iter().enumerate().take(20) {
+            let fits = (ph.p_offset as u128 + ph.p_filesz as u128) <= data.len() as u128;
+            match (f.segment_data(&ph), fits) {
+                (Ok(d), true) => {
+                    if d.len() != ph.p_filesz as usize || (!d.is_empty() && within(data, d) != Some(ph.p_offset as usize)) {
+                        return Err(format!("C03: segment {} data is not [p_offset, p_offset+p_filesz)", i));
+                    }
+                }
+                (Err(_), false) => {}
+                (Ok(_), false) => return Err(format!("C03: segment {} range does not fit but data was returned", i)),
+                (Err(e), true) => return Err(format!("C03: segment {} fits but error {}", i, show_err(&e))),
+            }
+            if ph.p_type != abi::PT_NOTE {
+                if !matches!(f.segment_data_as_notes(&ph), Err(elf::ParseError::UnexpectedSegmentType((a, b))) if a == ph.p_type && b == abi::PT_NOTE) {
+                    return Err(format!("C20: notes view of segment {} (type {}) not refused", i, ph.p_type));
+                }
+            } else if let (Ok(it), Ok(d)) = (f.segment_data_as_notes(&ph), f.segment_data(&ph)) {
+                let b = Bases(vec![data]);
+                let got: Vec<String> = it.map(|n| show_note(&n, &b)).collect();
+                let base = within(data, d).unwrap_or(0);
+                let want: Vec<String> = ref_notes(f.ehdr.endianness == AnyEndian::Little, ph.p_align as u128, d)
+                    .into_iter()
+                    .map(|s| rebase(&s, base))
+                    .collect();
+                if got != want {
+                    return Err(format!("C14: notes of segment {} differ from the reference walk", i));
+                }
+            }
+        }
+    }
+
+    // C20: by-name lookup returns the first section whose name equals the query
+    if let Ok((Some(shdrs), Some(strtab))) = f.section_headers_with_strtab() {
+        for q in queries.split(',') {
+            if let Some(hx) = q.strip_prefix('N') {
+                let name = unhex(hx);
+                if let Ok(nm) = std::str::from_utf8(&name) {
+                    let want = shdrs.iter().find(|s| strtab.get(s.sh_name as usize).map(|x| x == nm).unwrap_or(false));
+                    match f.section_header_by_name(nm) {
+                        Ok(got) if got == want => {}
+                        Ok(_) => return Err(format!("C20: section_header_by_name({:?}) is not the first section with that name", nm)),
+                        Err(e) => return Err(format!("C20: section_header_by_name({:?}) failed with {} although the tables are readable", nm, show_err(&e))),
+                    }
+                }
+            }
+        }
+    }
+    // C20: common-data discovery = targeted accessors, for objects with at most one section of each kind
+    if let Some(shdrs) = f.section_headers() {
+        let count = |t: u32| shdrs.iter().filter(|s| s.sh_type == t).count();
+        let once = [abi::SHT_SYMTAB, abi::SHT_DYNSYM, abi::SHT_DYNAMIC, abi::SHT_HASH, abi::SHT_GNU_HASH].iter().all(|t| count(*t) <= 1);
+        if once {
+            let b = Bases(vec![data]);
+            let tabs = |o: &Option<(SymbolTable<'_, AnyEndian>, StringTable<'_>)>| -> String {
+                match o {
+                    Some((t, s)) => format!(
+                        "{}|{}",
+                        t.iter().map(|x| x.show()).collect::<Vec<_>>().join(" "),
+                        show_res(&s.get_raw(0), |x| b.loc(x)) + &show_res(&s.get_raw(1), |x| b.loc(x))
+                    ),
+                    None => "none".into(),
+                }
+            };
+            match f.find_common_data() {
+                Ok(c) => {
+                    let y = f.symbol_table();
+                    let d = f.dynamic_symbol_table();
+                    let dy = f.dynamic();
+                    match (&y, &d, &dy) {
+                        (Ok(y), Ok(d), Ok(dy)) => {
+                            let cy = match (c.symtab, c.symtab_strs) { (Some(a), Some(b)) => Some((a, b)), _ => None };
+                            let cd = match (c.dynsyms, c.dynsyms_strs) { (Some(a), Some(b)) => Some((a, b)), _ => None };
+                            if tabs(&cy) != tabs(y) {
+                                return Err("C20: find_common_data().symtab differs from symbol_table()".into());
+                            }
+                            if tabs(&cd) != tabs(d) {
+                                return Err("C20: find_common_data().dynsyms differs from dynamic_symbol_table()".into());
+                            }
+                            let dshow = |o: &Option<elf::dynamic::DynamicTable<'_, AnyEndian>>| o.as_ref().map(|t| t.iter().map(|x| x.show()).collect::<Vec<_>>().join(" "));
+                            // scoped: a PT_DYNAMIC segment is accompanied by a .dynamic section whenever section headers exist
+                            let has_pt_dyn = f.segments().map(|p| p.iter().any(|x| x.p_type == abi::PT_DYNAMIC)).unwrap_or(false);
+                            let scoped = count(abi::SHT_DYNAMIC) == 1 || !has_pt_dyn;
+                            if scoped && dshow(&c.dynamic) != dshow(dy) {
+                                return Err("C20: find_common_data().dynamic differs from dynamic()".into());
+                            }
+                        }
+                        _ => return Err("C20: find_common_data() succeeded but a targeted accessor failed".into()),
+                    }
+                }
+                Err(_) => {
+                    // conversely: success of all the parts implies success of the whole
+                    let hash_ok = shdrs.iter().all(|s| {
+                        if s.sh_type == abi::SHT_HASH || s.sh_type == abi::SHT_GNU_HASH {
+                            match f.section_data(&s) {
+                                Ok((d, _)) => {
+                                    if s.sh_type == abi::SHT_HASH { SysVHashTable::new(f.ehdr.endianness, class, d).is_ok() } else { GnuHashTable::new(f.ehdr.endianness, class, d).is_ok() }
+                                }
+                                Err(_) => false,
+                            }
+                        } else { true }
+                    });
+                    if f.symbol_table().is_ok() && f.dynamic_symbol_table().is_ok() && f.dynamic().is_ok() && hash_ok
+                        && shdrs.iter().all(|s| s.sh_flags & abi::SHF_COMPRESSED as u64 == 0) {
+                        return Err("C20: every targeted accessor succeeds but find_common_data() fails".into());
+                    }
+                }
+            }
+        }
+    }
+    // C20: .dynamic section and PT_DYNAMIC designating the same bytes give the same table
+    if let (Some(shdrs), Some(phdrs)) = (f.section_headers(), f.segments()) {
+        if let (Some(sh), Some(ph)) = (shdrs.iter().find(|s| s.sh_type == abi::SHT_DYNAMIC), phdrs.iter().find(|p| p.p_type == abi::PT_DYNAMIC)) {
+            if sh.sh_offset == ph.p_offset && sh.sh_size == ph.p_filesz && sh.sh_flags & abi::SHF_COMPRESSED as u64 == 0 {
+                if let (Ok(Some(t)), Ok(seg)) = (f.dynamic(), f.segment_data(&ph)) {
+                    let via_seg = elf::dynamic::DynamicTable::new(f.ehdr.endianness, class, seg);
+                    let a: Vec<String> = t.iter().map(|x| x.show()).collect();
+                    let b: Vec<String> = via_seg.iter().map(|x| x.show()).collect();
+                    if a != b {
+                        return Err("C20: dynamic table via .dynamic differs from the one via PT_DYNAMIC".into());
+                    }
+                }
+            }
+        }
+    }
+    Ok(())
+}
+
+fn rebase(s: &str, base: usize) -> String {
+    // shift every `@off+len` (len > 0) by `base`
+    let mut out = String::new();
+    let mut rest = s;
+    while let Some(p) = rest.find('@') {
+        out.push_str(&rest[..p + 1]);
+        rest = &rest[p + 1..];
+        let digits: String = rest.chars().take_while(|c| c.is_ascii_digit()).collect();
+        if !digits.is_empty() {
+            let v: u128 = digits.parse().unwrap_or(0);
+            out.push_str(&(v + base as u128).to_string());
+            rest = &rest[digits.len()..];
+        }
+    }
+    out.push_str(rest);
+    out
+}
+
+/// Walk the whole slice-parser API without formatting anything (for the allocation count).
+fn bare_api_walk(data: &[u8]) {
+    let f = match ElfBytes::<AnyEndian>::minimal_parse(data) {
+        Ok(f) => f,
+        Err(_) => return,
+    };
+    let mut sink = 0u64;
+    let _ = f.section_headers_with_strtab();
+    let _ = f.section_header_by_name(".text");
+    if let Ok(c) = f.find_common_data() {
+        if let (Some(h), Some(s), Some(t)) = (&c.gnu_hash, &c.dynsyms, &c.dynsyms_strs) {
+            let _ = h.find(b"memset", s, t);
+        }
+        if let (Some(h), Some(s), Some(t)) = (&c.sysv_hash, &c.dynsyms, &c.dynsyms_strs) {
+            let _ = h.find(b"memset", s, t);
+        }
+    }
+    if let Ok(Some((t, s))) = f.symbol_table() {
+        for sym in t.iter() {
+            if let Ok(n) = s.get(sym.st_name as usize) { sink += n.len() as u64; }
+        }
+    }
+    let _ = f.dynamic_symbol_table();
+    if let Ok(Some(t)) = f.dynamic() { sink += t.iter().count() as u64; }
+    if let Ok(Some(v)) = f.symbol_version_table() {
+        for i in 0..8 {
+            let _ = v.get_requirement(i);
+            if let Ok(Some(d)) = v.get_definition(i) { sink += d.names.count() as u64; }
+        }
+    }
+    if let Some(shdrs) = f.section_headers() {
+        for sh in shdrs.iter().take(40) {
+            let _ = f.section_data(&sh);
+            let _ = f.section_data_as_strtab(&sh);
+            if let Ok(it) = f.section_data_as_rels(&sh) { sink += it.count() as u64; }
+            if let Ok(it) = f.section_data_as_relas(&sh) { sink += it.count() as u64; }
+            if let Ok(it) = f.section_data_as_notes(&sh) { sink += it.count() as u64; }
+        }
+    }
+    if let Some(phdrs) = f.segments() {
+        for ph in phdrs.iter().take(20) {
+            let _ = f.segment_data(&ph);
+            if let Ok(it) = f.segment_data_as_notes(&ph) { sink += it.count() as u64; }
+        }
+    }
+    std::hint::black_box(sink);
+}
+
+/// C18: each query on a prefix is an error or exactly the answer on the complete file.
+fn oracle_prefix(queries: &str, k: usize, data: &[u8], ann: &str) -> V {
+    let k = k.min(data.len());
+    let (small, big): (&[u8], &[u8]) = (&data[..k], data);
+    let what = if ann == "suffix" { "appending bytes" } else { "truncation" };
+    let head_a = run_file::<AnyEndian>("-", small);
+    if head_a.starts_with("open=err") {
+        return Ok(());
+    }
+    let head_b = run_file::<AnyEndian>("-", big);
+    if head_a != head_b {
+        return Err(format!("C18: {} changed what open returns: `{}` vs `{}`", what, &head_a[..head_a.len().min(200)], &head_b[..head_b.len().min(200)]));
+    }
+    for q in queries.split(',') {
+        let a = run_file::<AnyEndian>(q, small);
+        let b = run_file::<AnyEndian>(q, big);
+        let x = &a[head_a.len()..];
+        let y = &b[head_b.len()..];
+        if x == y {
+            continue;
+        }
+        let px = split_pieces(x);
+        let py = split_pieces(y);
+        if px.len() != py.len() {
+            if is_err_piece(x.trim_start_matches(';')) { continue; }
+            return Err(format!("C18: {} changed an answer: `{}` vs `{}`", what, &x[..x.len().min(200)], &y[..y.len().min(200)]));
+        }
+        for (u, v) in px.iter().zip(&py) {
+            if u != v && !is_err_piece(u.trim_start_matches(';')) {
+                return Err(format!("C18: {} changed an answer: `{}` vs `{}`", what, &u[..u.len().min(200)], &v[..v.len().min(200)]));
+            }
+        }
+    }
+    Ok(())
+}
+
+fn is_err_piece(p: &str) -> bool {
+    match p.split_once('=') {
+        Some((_, v)) => v.starts_with("err ") || v.contains("=err "),
+        None => p.starts_with("err "),
+    }
+}
+
+fn split_pieces(s: &str) -> Vec<String> {
+    // split `S3=shdr(..) data=… strtab=… rels=… relas=… notes=…`, `C=ok symtab=… dynsyms=…`, `H=sysv:… gnu:…`
+    let keys = [" data=", " strtab=", " rels=", " relas=", " notes=", " dynsyms=", " dynamic=", " sysv=", " gnu=", " gnu:"];
+    let mut cuts = vec![0usize];
+    for k in keys {
+        let mut start = 0;
+        while let Some(p) = s[start..].find(k) {
+            cuts.push(start + p + 1);
+            start += p + k.len();
+        }
+    }
+    cuts.sort();
+    cuts.dedup();
+    let mut out = vec![];
+    for (i, c) in cuts.iter().enumerate() {
+        let e = if i + 1 < cuts.len() { cuts[i + 1] } else { s.len() };
+        out.push(s[*c..e].trim_end().to_string());
+    }
+    out
+}
+
+pub fn oracle_line2(line: &str, ann: &str) -> V {
+    let t: Vec<&str> = line.trim().split(' ').collect();
+    match t.as_slice() {
+        ["notes", le, _cls, align, hexd] => oracle_notes(line, *le == "1", align, &unhex(hexd)),
+        [kind @ ("sysv" | "gnu"), le, cls, symhex, strhex, namehex, hashhex] => oracle_hash(
+            kind, *le == "1", class_of(cls), &unhex(symhex), &unhex(strhex), &unhex(namehex), &unhex(hashhex), ann,
+        ),
+        ["symver", _le, _cls, _idxs, _nc, _dc, _vs, _nd, nds, _df, dfs] => oracle_symver(line, ann, &unhex(nds), &unhex(dfs)),
+        ["verit", kind, _le, _cls, count, _off, hexd] => oracle_verit(line, kind, count, &unhex(hexd)),
+        ["file", sp, queries, hexd] => oracle_file(sp, queries, &unhex(hexd), ann),
+        ["prefix", _sp, queries, k, hexd] => oracle_prefix(queries, nat(k), &unhex(hexd), ann),
+        _ => crate::oracle3::oracle_line3(line, ann),
+    }
 }
